@@ -66,6 +66,9 @@ TNext ==
 TraceSpec == TInit /\ [][TNext]_tvars
 
 TraceInv == IndexMirror(st) /\ ShadowMirror(st) /\ VersionsSane(st)
+\* for hostile request streams (C13): a record put under the internal prefix with an index or a session and
+\* then removed by an internal range is not cleaned up - the mirrors are only claimed for client key spaces
+TraceInvBasic == VersionsSane(st)
 
 \* high-water mark of consumed lines (diagnostics and acceptance)
 HighWater == IF l > TLCGet(1) THEN TLCSet(1, l) ELSE TRUE
